@@ -45,6 +45,10 @@ func NewSparseConstInt16Vector(indices []int, values []int16, n int) SparseConst
   if len(indices) != len(values) {
     panic("invalid number of indices")
   }
+  // work on copies: the caller's slices are neither reordered nor shared
+  // with the vector (the Unsafe constructor above is the one that shares)
+  indices = append([]int{}, indices...)
+  values = append([]int16{}, values...)
   sort.Sort(sortIntConstInt16{indices, values})
   r := nilSparseConstInt16Vector(n)
   r.indices = indices[0:0]
